@@ -14,9 +14,14 @@ def _extra(run):
         "check_collaterals_assets of Alonzo / Babbage / Conway: collateral sum, lovelace_diff_or_fail / conway_lovelace_diff_or_fail (every arm, `f - s` as a panic site), percentage arithmetic, annotation", "compute_min_lovelace arithmetic (all eras)",
         "Shelley-MA deposit / refund arithmetic and the MIR total", "check_preservation_of_value + value arithmetic of utils.rs (all eras)",
         "Byron check_fees", "verification-key witness and required-signer checks (four post-Byron eras)", "validate_txs loop"]
+    run.extra_cov["no_partial_operation_in_own_code"] = [
+        "script / datum / redeemer / minting-policy / language rules, script-integrity and auxiliary-data hash checks: stated as total "
+        "functions of the observations in Model/Rules.lean (C38); script_rule_sites_benign: every inventoried site inside their functions "
+        "is a method named unwrap (KeepRaw / CborWrap) or the infallible Vec encoder of cost_model_cbor - what can panic there is callee code"]
     run.extra_cov["unmodelled_search_only"] = [
-        "UTxO look-ups, address decoding, network-id rules", "script / datum / redeemer / minting-policy / language rules",
-        "auxiliary-data and script-integrity hashes (ScriptData::build_for, cost-model encoding)", "Shelley-MA certificates (except the MIR total)",
+        "UTxO look-ups, address decoding, network-id rules (no arithmetic; callee code)",
+        "hashing and encoding called by the script-integrity / auxiliary-data rules (ScriptData::build_for, minicbor encode, Hasher)",
+        "Shelley-MA certificates (except the MIR total)",
         "Byron witness rule (address decoding, spending data, signature check)",
         "code of pallas-traverse / pallas-addresses / pallas-primitives / pallas-codec / pallas-crypto reached from the validators"]
 
@@ -27,7 +32,7 @@ SPEC = {
     "lean_modules": ["PallasVerif.Props.C33", "PallasVerif.Proofs.ValueTotal"],
     "required_theorems": ["validate_total", "panic_sites_all_audited", "all_anchored_files_scanned", "exunits_total", "min_fee_total",
                           "fee_and_size_total", "collateral_total", "subU64_panics_iff", "lovelace_diff_total", "collateral_balance_total",
-                          "collateral_alonzo_total", "min_lovelace_total", "deposits_total", "mir_total", "preservation_total",
+                          "collateral_rule_total", "collateral_alonzo_total", "script_rule_sites_benign", "min_lovelace_total", "deposits_total", "mir_total", "preservation_total",
                           "preservation_total_shelleyMA", "preservation_total_conway", "byron_fees_total", "witness_total",
                           "witness_total_shelley", "validate_txs_total"],
     "translators": [_panic_sites],
